@@ -18,7 +18,7 @@ RULE = (
     "class objects (the generated source is written to a file and imported) -> function / class parser. Non-trivial = "
     ">=2 params or a section besides params. Distinct = SHA-1 of the input."
 )
-TIERS = {"quick": {"shards": 8, "n": 2500, "budget_s": 200}, "thorough": {"shards": 16, "n": 20000, "budget_s": 2700}}
+TIERS = {"quick": {"shards": 8, "n": 2500, "budget_s": 200, "fuzz_runs": 3000, "fuzz_shards": 2}, "thorough": {"shards": 16, "n": 20000, "budget_s": 2700, "fuzz_runs": 300000}}
 FLOOR = {"quick": 1000, "thorough": 30000}
 REQUIRED_LABELS = {"quick": ["class-merge", "explicit-function_type", "src:docstring", "src:function-handshaped", "src:emitted", "src:text", "star-args", "live:function", "live:class", "json:$ref", "json:anyOf", "json:nullable", "json:items", "sql:class", "sql:table", "sql:pk+fk-on-one-column"], "thorough": []}
 ASSUMPTIONS = ["on ill-formed text (not derivable from the section grammar) the clauses 'name non-empty' and 'typ parses' are relaxed (P30); all other shape clauses stay"]
@@ -403,7 +403,43 @@ def layer_main(ctx):
     ctx.run_given("parsers", strategy(ctx), oracle, ctx.cfg["n"])
 
 
-LAYERS = [("parsers", layer_main)]
+# ---- coverage-guided layer (atheris) over the docstring parser: arbitrary text, shape oracle whenever it returns ------
+def _fuzz_decode(data):
+    if not data:
+        return {"kind": "text", "text": ""}
+    mode, rest = data[0], data[1:]
+    if mode % 3 == 0:
+        text = rest.decode("utf-8", "replace")
+    elif mode % 3 == 1:
+        text = "".join(TOK[b % len(TOK)] for b in rest)
+    else:
+        text = "".join(chr(b) if 0x20 <= b <= 0x7E or b == 0x0A else TOK[b % len(TOK)] for b in rest)
+    return {"kind": "text", "text": text}
+
+
+def _fuzz_corpus():
+    return [
+        b"\x00Sum.\n\n:param a: the a. Defaults to 5\n:type a: ```int```\n\n:return: x\n:rtype: ```str```\n",
+        b"\x00Sum.\n\nArgs:\n  a (int): the a. Defaults to 5\n  b (Optional[str]): the b\n\nReturns:\n  str: x\n",
+        b"\x00Sum.\n\nParameters\n----------\na : int\n  the a\n\nReturns\n-------\nstr\n  x\n",
+        b"\x01" + bytes(range(len(TOK))),
+    ]
+
+
+FUZZ = {"atheris": (_fuzz_decode, oracle, _fuzz_corpus), "atheris-empty-corpus": (_fuzz_decode, oracle, lambda: [])}
+
+
+def layer_fuzz(ctx):
+    n = ctx.cfg.get("fuzz_runs", 0)
+    if not n or ctx.shard >= ctx.cfg.get("fuzz_shards", ctx.nshards):
+        return
+    if ctx.shard % 2 == 0:
+        ctx.run_fuzz("atheris", n, with_corpus=True, max_len=160)
+    else:
+        ctx.run_fuzz("atheris-empty-corpus", n, with_corpus=False, max_len=160)
+
+
+LAYERS = [("parsers", layer_main), ("atheris", layer_fuzz)]
 
 
 def replay(case):
